@@ -33,6 +33,9 @@ type c19Item struct {
 	// signer uses for an honest delivery (0 = BLAKE3, the client's own choice).
 	Len int `json:",omitempty"`
 	HT  int `json:",omitempty"`
+	// Blk is the block size with respect to which a derive:tail:<kind> item
+	// takes "the last block" of the source payload.
+	Blk int `json:",omitempty"`
 }
 
 // c19Lens are the payload lengths of honest messages: below, at and above the
@@ -64,7 +67,77 @@ func (it c19Item) label() string {
 	if it.HT > 0 {
 		l += fmt.Sprintf("/h%d", it.HT)
 	}
+	if it.Blk > 0 {
+		l += fmt.Sprintf("/b%d", it.Blk)
+	}
 	return l
+}
+
+func isTailDerive(k string) bool { return strings.HasPrefix(k, "derive:tail:") }
+
+// genC19LargeScript generates a script of the LARGE-payload family: A's honest
+// message has a payload of n bytes (at / around internal block boundaries:
+// 1 KiB .. 1 MiB+1) and the relay then delivers variants that keep A's sender
+// id and signature and alter the payload only at its END (last byte, first
+// byte / a random byte / all of the last partial block with respect to block
+// size 64 B .. 128 KiB, last 16 bytes rewritten, last block dropped / zeroed /
+// rewritten / taken from the prefix, one byte dropped / appended, extended to
+// the next block boundary) or, as the complementary class, in the full blocks
+// in front. The variants follow their source immediately (also in one burst),
+// after an exact replay, a re-open, a stream reset or a small honest message.
+func genC19LargeScript(rng *rand.Rand, inst, n int, huge bool) []c19Item {
+	var items []c19Item
+	data := func() string { return fmt.Sprintf("c19L-i%d-s%d", inst, len(items)) }
+	if rng.IntN(3) == 0 {
+		items = append(items, c19Shape(rng, c19Item{Kind: "honest", Data: data()}))
+	}
+	big := c19Item{Kind: "honest", Data: data(), Len: n}
+	switch rng.IntN(5) {
+	case 0:
+		big.HT = int(hash.HashType_HashType_SHA256)
+	case 1:
+		big.HT = int(hash.HashType_HashType_SHA1)
+	}
+	items = append(items, big)
+	// block sizes the length is "interesting" for: every listed size below the length
+	var blks []int
+	for _, b := range g8sig.TailBlocks {
+		if b < n {
+			blks = append(blks, b)
+		}
+	}
+	if len(blks) == 0 {
+		blks = []int{64}
+	}
+	nd := 3 + rng.IntN(3)
+	if huge {
+		nd = 2
+	}
+	back := 1
+	for d := 0; d < nd; d++ {
+		if !huge {
+			switch rng.IntN(10) {
+			case 0:
+				items = append(items, c19Item{Kind: []string{"replay", "replay-newseq"}[rng.IntN(2)], Back: back})
+			case 1:
+				items = append(items, c19Item{Kind: []string{"reopen", "close-open", "kill-stream"}[rng.IntN(3)]})
+			case 2:
+				items = append(items, c19Shape(rng, c19Item{Kind: "honest", Data: data()}))
+				back++
+			}
+		}
+		k := g8sig.TailKinds[rng.IntN(len(g8sig.TailKinds))]
+		if d == 0 {
+			// every script alters at least once strictly inside the last block
+			k = g8sig.TailKinds[rng.IntN(4)]
+		}
+		it := c19Item{Kind: "derive:tail:" + k, Data: data(), Back: back, Blk: blks[rng.IntN(len(blks))]}
+		if p := items[len(items)-1].Kind; (p == "honest" || strings.HasPrefix(p, "replay")) && rng.IntN(10) < 2 {
+			it.Burst = true
+		}
+		items = append(items, it)
+	}
+	return items
 }
 
 func isDerive(k string) bool { return strings.HasPrefix(k, "derive:") }
@@ -210,7 +283,7 @@ func genC19Script(rng *rand.Rand, inst int) []c19Item {
 func TestC19(t *testing.T) {
 	r := vf.Start(t, "C19", vf.Exploration)
 	defer r.Finish()
-	r.SetRule("case = one script played by a scripted MALICIOUS relay (harness implementation of SRPCSignalingClient) to a real signaling client B holding a session with A while B's application calls Recv in a loop: Opened(e), then 5-10 PRNG-chosen deliveries mixing honest messages (signed by A under the signaling context, unique payloads) with forged ones (20 classes: bit flips in payload / signature / sender, third key claiming A, A-signed under the pubsub or a near-miss context, authentic message of C, authentic message of B itself, A's signature re-attributed to C, pub_key field of C, empty / nil / truncated signature, hash_type 0 / swapped, appended / empty payload, signature of another payload, nil envelope) plus re-opens, Closed, stray acks / clears, unknown oneof. A second family of scripts (6-12+ steps) plays HISTORY-dependent forgeries: each is derived from an honest message of A that the same peer tracker accepted earlier in the script (A's accepted signature bytes + sender with a new / bit-flipped / appended / truncated payload, with another hash type, with a pub_key field of C or A and a new payload, re-attributed to C or B; the payload under the signature of another accepted message and vice versa; the payload re-signed by C or under another context; extended signature), taken from the latest / previous-but-one / third-latest accepted message and delivered immediately after its source (also in one burst without a quiescent point), after exact replays, after other honest or forged messages, after Opened(e+1), Closed+Opened, a stray ClearMsg of the source, or a stream reset by the relay (new Session call on the same tracker); every such script holds at least one original->variant motif. Half of the derived forgeries are STRUCTURAL substitutions (22 kinds): A's sender id and signature bytes are kept and the payload is replaced by a value computed from the accepted payload - its BLAKE3 / SHA256 / SHA1 digest, the digest under the signature's own hash type, the double digest, the documented sign body (context - SIGN - hash type - SIGN - digest), the digest of the sign body, the payload cut / zero-padded to the digest length, to 20 / 32 / 64 bytes or to the block size, payload||digest, digest||payload, digest prefixes, hex / protobuf encodings of the digest, the digest with the hash-type field switched; digests are computed by the harness from the standard library / the blake3 primitive. Honest payloads are padded to lengths below, at and above the digest lengths (natural 11-20, 19, 20, 21, 31, 32, 33, 40, 63, 64, 65, 100, 300 bytes) and one honest message in five is signed by A over SHA256 or SHA1 instead of BLAKE3 (still A's signature under the signaling context), so that every length-dependent path of signer and verifier is entered; the same structural substitutions are also applied to payloads A signed but never delivered (first family). A variant that happens to be field-for-field identical to an honest delivery (e.g. \"other hash type\" of a message that already carries it) is skipped, not judged. Exact replays of accepted messages (also under another outer seqno) count as honest deliveries. After every delivery the whole batch is brought to a quiescent state (all goroutines parked, relay stream re-established if the client tore it down). Non-trivial = at least one honest message reached the application AND at least one forged delivery was consumed by the client; distinct = distinct kind sequences. Oracle (harness owns ground truth): every message returned by Recv is, field by field, the signed envelope of an honest delivery of this script; any other returned message is a violation keyed by the forgery class")
+	r.SetRule("case = one script played by a scripted MALICIOUS relay (harness implementation of SRPCSignalingClient) to a real signaling client B holding a session with A while B's application calls Recv in a loop: Opened(e), then 5-10 PRNG-chosen deliveries mixing honest messages (signed by A under the signaling context, unique payloads) with forged ones (20 classes: bit flips in payload / signature / sender, third key claiming A, A-signed under the pubsub or a near-miss context, authentic message of C, authentic message of B itself, A's signature re-attributed to C, pub_key field of C, empty / nil / truncated signature, hash_type 0 / swapped, appended / empty payload, signature of another payload, nil envelope) plus re-opens, Closed, stray acks / clears, unknown oneof. A second family of scripts (6-12+ steps) plays HISTORY-dependent forgeries: each is derived from an honest message of A that the same peer tracker accepted earlier in the script (A's accepted signature bytes + sender with a new / bit-flipped / appended / truncated payload, with another hash type, with a pub_key field of C or A and a new payload, re-attributed to C or B; the payload under the signature of another accepted message and vice versa; the payload re-signed by C or under another context; extended signature), taken from the latest / previous-but-one / third-latest accepted message and delivered immediately after its source (also in one burst without a quiescent point), after exact replays, after other honest or forged messages, after Opened(e+1), Closed+Opened, a stray ClearMsg of the source, or a stream reset by the relay (new Session call on the same tracker); every such script holds at least one original->variant motif. Half of the derived forgeries are STRUCTURAL substitutions (22 kinds): A's sender id and signature bytes are kept and the payload is replaced by a value computed from the accepted payload - its BLAKE3 / SHA256 / SHA1 digest, the digest under the signature's own hash type, the double digest, the documented sign body (context - SIGN - hash type - SIGN - digest), the digest of the sign body, the payload cut / zero-padded to the digest length, to 20 / 32 / 64 bytes or to the block size, payload||digest, digest||payload, digest prefixes, hex / protobuf encodings of the digest, the digest with the hash-type field switched; digests are computed by the harness from the standard library / the blake3 primitive. Honest payloads are padded to lengths below, at and above the digest lengths (natural 11-20, 19, 20, 21, 31, 32, 33, 40, 63, 64, 65, 100, 300 bytes) and one honest message in five is signed by A over SHA256 or SHA1 instead of BLAKE3 (still A's signature under the signaling context), so that every length-dependent path of signer and verifier is entered; the same structural substitutions are also applied to payloads A signed but never delivered (first family). A variant that happens to be field-for-field identical to an honest delivery (e.g. \"other hash type\" of a message that already carries it) is skipped, not judged. Exact replays of accepted messages (also under another outer seqno) count as honest deliveries. A third family of scripts (one per length, plus PRNG ones) works on LARGE payloads: A's honest message carries 1023 B .. 262143 B (one or two per run: 1 MiB-1 / 1 MiB / 1 MiB+1) at, one below and one above the powers of two from 1 KiB to 128 KiB and the multiples of 64 KiB, signed over BLAKE3 / SHA256 / SHA1, and the relay then delivers 2-5 variants that keep A's sender id and signature bytes and alter the payload only at its END - last byte flipped, first / a random byte of the last (partial, else full) block flipped with respect to a block size of 64 B .. 128 KiB, last 16 bytes rewritten, last block zeroed / rewritten / replaced by the prefix / dropped, last byte dropped, one byte appended, payload extended to the next block boundary, last byte of the full blocks flipped - or (complementary class) in the full blocks in front, immediately behind the source (also in one burst), after an exact replay, a re-open / Closed+Opened / stream reset or a small honest message. After every delivery the whole batch is brought to a quiescent state (all goroutines parked, relay stream re-established if the client tore it down). Non-trivial = at least one honest message reached the application AND at least one forged delivery was consumed by the client; distinct = distinct kind sequences. Oracle (harness owns ground truth): every message returned by Recv is, field by field, the signed envelope of an honest delivery of this script; any other returned message is a violation keyed by the forgery class")
 	r.Assume("scripted relay passes Go structs (no wire encoding); the adversary is the one listed in the property quantifier, a replay of a message A addressed to a third peer is not exercised (DESIGN C19 notes)")
 	rng := r.Rand("c19-scripts")
 	n0 := r.N(240, 8000)
@@ -227,11 +300,33 @@ func TestC19(t *testing.T) {
 		scripts[i] = genC19HistScript(hrng, i)
 		seeds[i] = hrng.Uint64()
 	}
+	// third family: large payloads at / around block boundaries with alterations at the end
+	lrng := r.Rand("c19-large-scripts")
+	nl := r.N(len(g8sig.LargeLens)+2+10, len(g8sig.LargeLens)+6+600)
+	nHuge := r.N(2, 6)
+	for j := 0; j < nl; j++ {
+		ln, huge := 0, false
+		switch {
+		case j < len(g8sig.LargeLens):
+			ln = g8sig.LargeLens[j]
+		case j < len(g8sig.LargeLens)+nHuge:
+			ln, huge = g8sig.HugeLens[(j+int(r.Seed()%3))%len(g8sig.HugeLens)], true
+		default:
+			ln = g8sig.LargeLens[lrng.IntN(len(g8sig.LargeLens))]
+		}
+		scripts = append(scripts, genC19LargeScript(lrng, n+j, ln, huge))
+		seeds = append(seeds, lrng.Uint64())
+	}
 	idRng := r.Rand("c19-keys")
 	pool := keys.Pool(idRng, 12)
 
 	rounds := runBatches(n, 120, func(idx int, b *g8sig.Batch) {
 		runC19(r, idx, scripts[idx], seeds[idx], pool, b)
+	})
+	// the large scripts run in batches of their own (their deliveries take longer
+	// to digest, every barrier round waits for the slowest instance)
+	rounds += runBatches(nl, 64, func(j int, b *g8sig.Batch) {
+		runC19(r, n+j, scripts[n+j], seeds[n+j], pool, b)
 	})
 	r.Count("barrier_rounds", rounds)
 }
@@ -326,7 +421,7 @@ func runC19(r *vf.Run, idx int, script []c19Item, seed uint64, pool []*keys.Iden
 				continue
 			}
 			r.Violation("accepted/"+from, fmt.Sprintf("client B handed a message to the application as coming from A that is not an honest delivery (class %s)", from),
-				map[string]any{"script": script, "step": step, "returned": op.Msg.String(), "session_peer": a.String(), "local": lb.String(), "third": c.String()})
+				map[string]any{"script": script, "step": step, "returned": g8sig.ShortMsg(op.Msg), "session_peer": a.String(), "local": lb.String(), "third": c.String()})
 			return false
 		}
 		return true
@@ -376,10 +471,35 @@ func runC19(r *vf.Run, idx int, script []c19Item, seed uint64, pool []*keys.Iden
 			m := g8sig.HonestHT(a, pl, seq, ht)
 			r.Distinct("honest_payload_length_class", g8sig.LenClass(len(pl), ht)+"/"+ht.String())
 			r.Count("delivered_honest_"+g8sig.LenClass(len(pl), ht), 1)
+			if len(pl) >= 1023 {
+				r.Count("delivered_honest_large_payload", 1)
+				r.Distinct("large_honest_payload_length_x_hash", fmt.Sprintf("%d/%s", len(pl), ht.String()))
+			}
 			pushed = append(pushed, delivered{step, true, m})
 			originals = append(originals, m)
 			s.Push(g8sig.RecvMsg(m))
 			r.Count("delivered_honest", 1)
+		case isTailDerive(it.Kind) && len(originals) > 0:
+			h, _ := source(it.Back)
+			if rng.IntN(2) == 0 {
+				seq = h.Seqno
+			}
+			kind := it.Kind[len("derive:tail:"):]
+			m := g8sig.TailDerive(kind, it.Blk, h, seq, rng)
+			if isHonest(m) {
+				r.Count("derived_variant_identical_to_honest_skipped", 1)
+				continue
+			}
+			src := h.GetSignedMsg()
+			pushed = append(pushed, delivered{step, false, m})
+			s.Push(g8sig.RecvMsg(m))
+			forgedConsumed++
+			derivedDelivered++
+			r.Count("delivered_"+it.Kind, 1)
+			r.Count("derived_forgeries_delivered", 1)
+			r.Count("tail_forgeries_delivered", 1)
+			r.Distinct("tail_kind_x_size_class", fmt.Sprintf("%s/b%d/%s", kind, it.Blk, g8sig.SizeClass(len(src.GetData()), it.Blk)))
+			r.Distinct("tail_source_length_x_hash", fmt.Sprintf("%d/%s", len(src.GetData()), src.GetSignature().GetHashType().String()))
 		case isDerive(it.Kind) && len(originals) > 0:
 			h, h2 := source(it.Back)
 			if rng.IntN(2) == 0 {
